@@ -148,3 +148,84 @@ def recip_table(rep, prog, rule):
         rep.unk(rule, "table|content", f.loc, "RECIP_ALPHA[%d] deviates by %s from 255 * 2^%d / a: "
                 "outside the error budget (1/2) that guarantees a neighbouring integer for every "
                 "colour" % (worst[1], float(worst[0]), prec))
+
+
+def align_table(rep, prog, rule):
+    """C04: the alignment a byte buffer must have for each pixel type."""
+    import re
+    from .tables import Switch, enum_variants
+    from .loadwidth import type_size, PRIM_SIZE
+    rep.rule(rule, "PixelType::is_aligned demands for every pixel type exactly the alignment of that "
+             "type's component (U8* 1, U16* 2, I32 / F32* 4): per arm of its switch on the pixel type the "
+             "demanded alignment is read from the type argument of align_to / align_of (or `true` = 1); a "
+             "smaller one lets a misaligned buffer through validation (the typed accessors then fail "
+             "or panic), a larger one rejects valid buffers")
+    fs = [f for f in prog.fns.values() if f.name == "pixels::PixelType::is_aligned"]
+    if len(fs) != 1:
+        rep.unk(rule, "is_aligned|anchor", "", "%d functions named PixelType::is_aligned" % len(fs))
+        return
+    f = fs[0]
+    rep.touch(f)
+    variants = enum_variants(prog, "pixels::PixelType")
+    sw_bb = None
+    for b, blk in enumerate(f.blocks):
+        t = blk["t"]
+        if not blk["c"] and t and t[0] == "sw" and t[4] != "bool":
+            sw_bb = b
+            break
+    if sw_bb is None or not variants:
+        rep.unk(rule, "is_aligned|switch", f.loc, "no switch on the pixel type")
+        return
+    sw = Switch(f, sw_bb)
+
+    def comp_align(ty):
+        ty = ty.strip()
+        if ty in PRIM_SIZE:
+            return PRIM_SIZE[ty]
+        m = re.match(r"^pixels::Pixel<(.+), (\w+), (\d+)>$", ty)
+        if m:
+            return PRIM_SIZE.get(m.group(2))
+        return None
+    arm_of = {v: b for v, b in sw.arms}
+    n = 0
+    for discr, vname in sorted(variants.items()):
+        n += 1
+        want = {"U8": 1, "U16": 2, "I32": 4, "F32": 4}.get(re.match(r"^(U8|U16|I32|F32)", vname).group(1)
+                                                            if re.match(r"^(U8|U16|I32|F32)", vname) else "")
+        target = arm_of.get(discr, sw.otherwise)
+        blocks = sw.arm_blocks(target) if list(arm_of.values()).count(target) + (target == sw.otherwise) == 1 \
+            else {target}
+        got = None
+        for c in f.calls():
+            if c.bb not in blocks and c.bb != target:
+                continue
+            nm = c.method or c.name.rsplit("::", 1)[-1]
+            if nm in ("align_to", "align_to_mut", "align_of"):
+                ts = [a[1] for a in c.callee.get("args", []) if a and a[0] == "t"]
+                t_ = ts[-1] if ts else None
+                got = comp_align(t_) if t_ else None
+                break
+        if got is None:
+            # `true` for this arm
+            for b in ({target} | blocks):
+                for st in f.blocks[b]["s"]:
+                    if st[0] == "a" and st[1] == [0] and st[2][0] == "use" and st[2][1][0] == "k" \
+                            and st[2][1][-1] in (True, 1, ["b", True], "true"):
+                        got = 1
+        key = "is_aligned|%s" % vname
+        if want is None:
+            rep.unk(rule, key, f.loc, "component of %s not known" % vname)
+        elif got is None:
+            rep.unk(rule, key, f.loc, "alignment demanded for %s not recognised" % vname)
+        elif got == want:
+            rep.ok(rule, key, f.loc, "%s: alignment %d" % (vname, got))
+        elif got < want:
+            rep.bad(rule, key + "|too-weak", f.loc,
+                    "PixelType::is_aligned demands alignment %d for %s, whose components need %d: a "
+                    "misaligned buffer passes ImageRef::new / Image::from_slice_u8 / from_vec_u8 and the "
+                    "typed accessors fail later" % (got, vname, want))
+        else:
+            rep.bad(rule, key + "|too-strict", f.loc,
+                    "PixelType::is_aligned demands alignment %d for %s, whose components need %d: valid "
+                    "buffers are rejected" % (got, vname, want))
+    rep.floor(rule, "pixel types", n, 13)
